@@ -167,8 +167,19 @@ pub fn run_case(calls: &[Call], path: &Path, mode: PersistMode) -> CaseRun {
     }
     let ev = serde_json::to_value(&expected).unwrap();
     let ov = serde_json::to_value(&observed).unwrap();
-    let (path_, abstract_path, e, o) = model::first_diff(&ev, &ov)
-        .unwrap_or_else(|| verif_common::machinery_error("values differ but their JSON renderings do not"));
+    // The JSON rendering goes through the schema's own `Serialize` impls: if those drop information (e.g. a
+    // `skip_serializing_if`), two different values can render alike. Fall back to the `Debug` renderings, which are derived.
+    let (path_, abstract_path, e, o) = model::first_diff(&ev, &ov).unwrap_or_else(|| {
+        let (ed, od) = (format!("{expected:?}"), format!("{observed:?}"));
+        let at = ed.bytes().zip(od.bytes()).position(|(a, b)| a != b).unwrap_or(ed.len().min(od.len()));
+        let win = |s: &str| s.get(at.saturating_sub(60)..(at + 60).min(s.len())).unwrap_or("").to_string();
+        (
+            "<not visible in the serialized form>".to_string(),
+            "serialize-loses-information".to_string(),
+            win(&ed),
+            win(&od),
+        )
+    });
     CaseRun {
         outcome: Outcome::Mismatch { path: path_, abstract_path, expected: e, observed: o },
         expected: Some(expected),
